@@ -122,10 +122,33 @@ def catalogue(w, rng):
         add('rename-unknown-node', lambda: bdd.let({v0: v0}, bad))
         add('find_or_add-unknown-child',
             lambda: bdd.find_or_add(0, bad, 1))
+        # one successor exists, the other does not (both positions); the
+        # existing one is a held node strictly below level 0 if possible
+        below = [x for x in (abs(a), abs(b))
+                 if x != 1 and w.raw._succ[x][0] > 0]
+        known = below[0] if below else 1
+        add('find_or_add-unknown-high',
+            lambda: bdd.find_or_add(0, known, bad))
+        add('find_or_add-unknown-low',
+            lambda: bdd.find_or_add(0, -bad, known))
         add('find_or_add-level-negative', lambda: bdd.find_or_add(-1, -1, 1))
         add('find_or_add-level-too-big', lambda: bdd.find_or_add(n, -1, 1))
         add('descendants-unknown', lambda: bdd.descendants([bad]))
         add('to_nx-unknown', lambda: _b.to_nx(bdd, {bad}))
+    # the manager is full (`max_nodes` is a documented limit): an
+    # operation that needs a new node fails with "full"
+    # (not with dynamic reordering enabled: "full" can then strike in the
+    # middle of a swap of the reordering that the operation started, and
+    # a swap is not atomic - see DESIGN.md section 4, not judged)
+    def full():
+        old = raw.max_nodes
+        raw.max_nodes = raw._min_free + 1
+        try:
+            return build(raw, random_table(rng, w.sp, 0.5), w.sp)
+        finally:
+            raw.max_nodes = old
+    if not w.reordering:
+        add('manager-full', full)
     add('add_expr-unknown-node', lambda: bdd.add_expr('@987654'))
     add('add_expr-unknown-node-late',
         lambda: bdd.add_expr(f'({v0} /\\ @{node_of(a)}) \\/ @-987654'))
@@ -257,6 +280,16 @@ def file_faults(w, rng):
                     lambda: bdd.load(f'c{pid}.p')))
         cat.append(('load-pickle-conflict-after-partial-declaration',
                     lambda: bdd.load(f'd{pid}.p')))
+        if len(names) <= 6:
+            # the same conflict through `copy_vars` (its refusal may
+            # leave the variables that were declared before it)
+            import dd._copy as _cv
+            if w.kind == 'autoref':
+                cat.append(('copy_vars-conflict-after-partial-declaration',
+                            lambda: _a.copy_vars(src2, bdd)))
+            else:
+                cat.append(('copy_vars-conflict-after-partial-declaration',
+                            lambda: _cv.copy_vars(src2._bdd, raw)))
     for k in range(1, 8):
         cut = len(data) * k // 8
 
